@@ -332,4 +332,55 @@ func TestVerifC02(t *testing.T) {
 			i++
 		}
 	}
+	// the statement's product "every subset of ejected backends x every in-flight-count vector":
+	// the history search holds at most a few requests in flight; here every backend carries a
+	// common load on both sides of every plausible per-backend bound (injected into the gauges),
+	// with distinct small loads on top, under every strategy and every ejected subset
+	for _, strat := range allStrategies {
+		if vh.MyShard(i) {
+			c02Loads(r, strat, 4)
+		}
+		i++
+	}
+}
+
+func c02Loads(r *vres.Report, strat string, maxN int) {
+	start := time.Now()
+	var evals int64
+	var outs vres.Outcomes
+	for n := 1; n <= maxN; n++ {
+		for mask := 0; mask < 1<<n; mask++ {
+			for _, base := range []int{0, 1, 99, 100, 101, 1000, 32767, 32768, 65535, 65536, 1 << 20, 1 << 30} {
+				for _, client := range []string{"10.0.0.1", "10.1.0.1", "172.16.5.9"} {
+					status, hit := 0, -1
+					vh.RunSeq(r, "C02/sequential", func(s *vrt.Sched) {
+						k := newKit(s, kitOpts{Strategy: strat, N: n, PassiveThr: 1, Window: 1000})
+						for i := 0; i < n; i++ {
+							b := k.backendByName(fmt.Sprintf("b%d", i))
+							b.ActiveConnections += int32(base + (i*7)%3)
+							if mask&(1<<i) != 0 {
+								k.lb.MarkBackendUnhealthy(b, 1000*time.Second)
+							}
+						}
+						hit, status = servedIndex(k, client)
+						evals++
+					})
+					all := mask == 1<<n-1
+					outs.Add(fmt.Sprintf("%v/%d", all, status))
+					desc := fmt.Sprintf("%s n=%d ejected-mask=%b, every backend with about %d requests in flight, client %s", strat, n, mask, base, client)
+					switch {
+					case all && (status != 503 || hit >= 0):
+						r.Violate("C02/loads/dispatched-although-all-ejected", fmt.Sprintf("%s: status %d, backend %d contacted", desc, status, hit), n, nil)
+					case !all && status == 503:
+						r.Violate("C02/no-healthy-backend-503-while-a-backend-is-outside-every-window/loads/"+strat, fmt.Sprintf("%s: answered 503 although a backend is outside every unhealthy window", desc), n, map[string]interface{}{"engine": "H", "test": "TestVerifC02", "strategy": strat, "n": n, "mask": mask, "base": base})
+					case !all && (hit < 0 || mask&(1<<hit) != 0):
+						r.Violate("C02/loads/dispatched-to-ejected-backend/"+strat, fmt.Sprintf("%s: served by %d (status %d)", desc, hit, status), n, nil)
+					}
+				}
+			}
+		}
+	}
+	r.AddScenario(vres.Scenario{Name: "failover-under-load-" + strat, Engine: "H", Executions: evals, States: evals, Transitions: evals, Outcomes: outs.N(),
+		Bound: fmt.Sprintf("pools of 1..%d x every ejected subset x 12 base loads (0 .. 2^30, around 100, 2^15 and 2^16) x 3 client addresses", maxN), Exhaustive: true,
+		Extra: map[string]interface{}{"wall_s": time.Since(start).Seconds()}})
 }
